@@ -1,5 +1,6 @@
 """C02 - opening a plotfile exposes exactly the metadata its headers state."""
 import os
+import sys
 import shutil
 import numpy as np
 from .. import scope, vpool
@@ -84,6 +85,17 @@ def cases(tier, seed):
                         d.update({"time": tm, "fields": FIELDSETS[fi], "extra_ratio": ex, "layout": lays[li],
                                   "payload": "hostile" if (fi + li) % 3 == 0 else "coded", "seed": seed})
                         out.append({"desc": d})
+    # four of the plotfiles (2D / 3D, fewest and most levels) are also opened by interpreters started with -O and -OO
+    marks = {}
+    for i, c in enumerate(out):
+        key = (c["desc"]["ndims"], len(c["desc"]["levels"]))
+        marks.setdefault(key, i)
+    nds = sorted(set(k[0] for k in marks))
+    for nd in nds:
+        lvls = sorted(k[1] for k in marks if k[0] == nd)
+        for nl in (lvls[0], lvls[-1]):
+            out[marks[(nd, nl)]]["interpreter_modes"] = True
+            out[marks[(nd, nl)]]["w"] = 40
     return out
 
 
@@ -263,6 +275,28 @@ def run_case(case, workdir):
             check_open(rec, sub, val, ref2, d2, p, None, False, True, parsed2)
         except Exception as e:
             rec.fail("attribute_access", sub, exc_text(e))
+    # environment: another interpreter mode - `python -O` / `-OO` (PYTHONOPTIMIZE), where assert statements are not executed.
+    # The plotfile is opened in a subprocess started that way and the pickled reader is judged here like any other opening.
+    if case.get("interpreter_modes"):
+        import subprocess
+        import pickle
+        script = ("import sys, pickle\nfrom amr_kitchen import PlotfileCooker\n"
+                  "p = PlotfileCooker(sys.argv[1], maxmins=True)\npickle.dump(p, open(sys.argv[2], 'wb'))\n")
+        for flag in ("-O", "-OO"):
+            dump = os.path.join(workdir, "opened%s.pkl" % flag)
+            sub = {"interpreter": "python " + flag, "limit_level": None, "header_only": False, "maxmins": True}
+            r = subprocess.run([sys.executable, flag, "-c", script, path, dump], capture_output=True, text=True, timeout=600,
+                               env=dict(os.environ, OMP_NUM_THREADS="1"))
+            rec.exe([dh, "interpreter", flag], nontrivial=True)
+            if r.returncode != 0 or not os.path.exists(dump):
+                rec.fail("open_raised", sub, (r.stderr.strip().split("\n") or ["exit %d" % r.returncode])[-1][:300])
+                continue
+            try:
+                with open(dump, "rb") as f_:
+                    val = pickle.load(f_)
+                check_open(rec, sub, val, ref, desc, path, None, False, True, parsed)
+            except Exception as e:
+                rec.fail("attribute_access", sub, exc_text(e))
     rec.sample({"desc": desc, "opens": "limit in None,0..finest+1 x header_only x maxmins"})
     return rec.result()
 
